@@ -4,7 +4,7 @@
 int main(int argc, char **argv) {
     vf::opts o(argc, argv);
     vf::install_crash_handler();
-    RUN("shared_future_history", 1, false, scn::shared_future_history(o, R, o.cases));
+    RUN("shared_future_history", 1, true, scn::shared_future_history(o, R, o.cases));
     RUN("shared_future_mt", o.threads, true, scn::shared_future_mt(o, R, T, o.cases));
     return 0;
 }
